@@ -199,9 +199,10 @@ Definition kneser (n k : nat) : option dense :=
   do us <- mapM (unrank k) (seq 0 N);
   add_edges (d_empty N) (kneser_pairs us).
 
-Definition bikneser_pairs (k : nat) (us vs : list (list nat)) : list (nat * nat) :=
+(* sm is `smaller` = min(k, n-k): one set contains the other iff the intersection is all of the smaller *)
+Definition bikneser_pairs (sm : nat) (us vs : list (list nat)) : list (nat * nat) :=
   flat_map (fun i => flat_map (fun j =>
-      if isize (nth i us []) (nth j vs []) =? k then [(i, length us + j)] else [])
+      if isize (nth i us []) (nth j vs []) =? sm then [(i, length us + j)] else [])
     (seq 0 (length us))) (seq 0 (length us)).
 
 Definition bipartite_kneser (n k : nat) : option dense :=
@@ -209,7 +210,7 @@ Definition bipartite_kneser (n k : nat) : option dense :=
   if n <? k then Some (d_empty 0) (* C(n,k) = 0: no loop body runs *) else
   do us <- mapM (unrank k) (seq 0 N);
   do vs <- mapM (unrank (n - k)) (seq 0 N);
-  add_edges (d_empty (N + N)) (bikneser_pairs k us vs).
+  add_edges (d_empty (N + N)) (bikneser_pairs (Nat.min k (n - k)) us vs).
 
 (* (i + v) % n, plus n when negative: Go's % truncates *)
 Definition circ_target (i : nat) (v : Z) (n : nat) : nat :=
@@ -329,9 +330,8 @@ Fixpoint compl_go (a : list nat) : nat -> nat -> list nat :=
       end
     end.
 
-(* make([]int, 0, n-len(a)) panics when the capacity is negative *)
-Definition si_complement (n : nat) (a : list nat) : option (list nat) :=
-  if n <? length a then None else Some (compl_go a 0 n).
+(* the capacity n-len(a) is clamped at 0 (a may hold elements outside {0..n-1}): no panic *)
+Definition si_complement (n : nat) (a : list nat) : option (list nat) := Some (compl_go a 0 n).
 
 Inductive gval :=
 | GD (g : dense)                                              (* *DenseGraph *)
